@@ -247,11 +247,14 @@ package corerad
 //@   ensures R2 [C08]: ghost.running == old(ghost.running) + b2i(result)
 //@   ensures R3 [C08]: lockGet(ghost.wgCount, addr(workerWG)) == old(lockGet(ghost.wgCount, addr(workerWG))) + b2i(result)
 //@   at call Add(wg, n): assert A1 [C08]: wg == addr(workerWG) && n == 1 && !stopped ; ghost.running = ghost.running + 1
+//@   ensures R4 [C08,C10]: old(lockGet(ghost.lockDepth, addr(workerMu))) >= 0 ==> lockGet(ghost.lockDepth, addr(workerMu)) == old(lockGet(ghost.lockDepth, addr(workerMu)))
 //@   opt safety [C08]
 //@ func (*Advertiser).schedule$2
 //@   assigns heap(bool) at addr(stopped), ghost.wgWaited, ghost.lockDepth
 //@   at call Wait(wg): assert W1 [C08]: wg == addr(workerWG) && stopped
 //@   ensures S1 [C08]: stopped && setHas(ghost.wgWaited, addr(workerWG))
+//@   ensures S2 [C08,C10]: old(lockGet(ghost.lockDepth, addr(workerMu))) >= 0 ==> lockGet(ghost.lockDepth, addr(workerMu)) == old(lockGet(ghost.lockDepth, addr(workerMu)))
+//@   at call Wait(wg2): assert W2 [C08,C10]: old(lockGet(ghost.lockDepth, addr(workerMu))) >= 0 ==> lockGet(ghost.lockDepth, addr(workerMu)) == old(lockGet(ghost.lockDepth, addr(workerMu)))
 //@   opt safety [C08]
 
 // Scheduled transmit workers: a worker transmits only between begin() == true
